@@ -237,22 +237,24 @@ static void stack_bounds(void)
 /* region codes in events: ["h",id] heap, ["u",kind,id] user, ["s","name"]
  * static, ["f",id] freed heap block, ["g",id] guard gap after block id,
  * ["w"] wild */
-struct acc { uintptr_t key; unsigned char wr; };
+struct acc { uintptr_t key; unsigned short sz; unsigned char wr; };
 #define SEG 512
 static __thread struct acc seg[SEG];
 static __thread int nseg;
 static __thread int in_rt;
 
-static void add(uintptr_t a, int wr)
+static void add(uintptr_t a, int wr, unsigned sz)
 {
-	/* key: word address when words are recorded, else region-granular */
-	uintptr_t key = a & ~(uintptr_t)7;
+	/* region-level recording keys on the 8-byte word, word-level recording
+	 * on the exact byte range */
+	uintptr_t key = memrec_words ? a : (a & ~(uintptr_t)7);
+	unsigned short s16 = sz > 4096 ? 4096 : (unsigned short)sz;
 
 	for (int i = nseg - 1; i >= 0 && i >= nseg - 8; i--)
-		if (seg[i].key == key && seg[i].wr >= wr)
+		if (seg[i].key == key && seg[i].wr >= wr && (!memrec_words || seg[i].sz >= s16))
 			return;
 	for (int i = 0; i < nseg; i++)
-		if (seg[i].key == key) {
+		if (seg[i].key == key && (!memrec_words || seg[i].sz == s16)) {
 			if (wr)
 				seg[i].wr = 1;
 			return;
@@ -262,6 +264,7 @@ static void add(uintptr_t a, int wr)
 		memrec_flush();
 	}
 	seg[nseg].key = key;
+	seg[nseg].sz = s16;
 	seg[nseg].wr = wr;
 	nseg++;
 }
@@ -351,8 +354,8 @@ void memrec_flush(void)
 				continue;
 			off += snprintf(out + off, sizeof out - off, "%s[%s,%d,0]", first ? "" : ",", d, seg[i].wr);
 		} else {
-			off += snprintf(out + off, sizeof out - off, "%s[%s,%d,%d]", first ? "" : ",", d, seg[i].wr,
-					base ? (int)((seg[i].key - (base & ~(uintptr_t)7)) >> 3) : 0);
+			off += snprintf(out + off, sizeof out - off, "%s[%s,%d,%d,%d]", first ? "" : ",", d, seg[i].wr,
+					base ? (int)(seg[i].key - base) : 0, (int)seg[i].sz);
 		}
 		first = 0;
 		if (off > sizeof out - 128)
@@ -367,35 +370,35 @@ void memrec_flush(void)
 	in_rt = 0;
 }
 
-static inline void rec(void *addr, int wr)
+static inline void rec(void *addr, int wr, unsigned sz)
 {
 	if (!memrec_on || in_rt)
 		return;
-	add((uintptr_t)addr, wr);
+	add((uintptr_t)addr, wr, sz);
 }
 
 #define RW(n) \
-	void __tsan_read##n(void *a) { rec(a, 0); } \
-	void __tsan_write##n(void *a) { rec(a, 1); } \
-	void __tsan_unaligned_read##n(void *a) { rec(a, 0); } \
-	void __tsan_unaligned_write##n(void *a) { rec(a, 1); }
+	void __tsan_read##n(void *a) { rec(a, 0, n); } \
+	void __tsan_write##n(void *a) { rec(a, 1, n); } \
+	void __tsan_unaligned_read##n(void *a) { rec(a, 0, n); } \
+	void __tsan_unaligned_write##n(void *a) { rec(a, 1, n); }
 RW(1) RW(2) RW(4) RW(8) RW(16)
 
-void __tsan_read_range(void *a, unsigned long n)
+static void rec_range(void *a, unsigned long n, int wr)
 {
+	if (memrec_words) {
+		for (unsigned long i = 0; i < n; i += 4096)
+			rec((char *)a + i, wr, n - i > 4096 ? 4096 : (unsigned)(n - i));
+		return;
+	}
 	for (unsigned long i = 0; i < n && i < 4096; i += 8)
-		rec((char *)a + i, 0);
+		rec((char *)a + i, wr, 8);
 	if (n)
-		rec((char *)a + n - 1, 0);
+		rec((char *)a + n - 1, wr, 1);
 }
 
-void __tsan_write_range(void *a, unsigned long n)
-{
-	for (unsigned long i = 0; i < n && i < 4096; i += 8)
-		rec((char *)a + i, 1);
-	if (n)
-		rec((char *)a + n - 1, 1);
-}
+void __tsan_read_range(void *a, unsigned long n) { rec_range(a, n, 0); }
+void __tsan_write_range(void *a, unsigned long n) { rec_range(a, n, 1); }
 
 void __tsan_func_entry(void *pc) { }
 void __tsan_func_exit(void) { }
@@ -408,8 +411,7 @@ void memrec_buf(const void *p, size_t n, int wr)
 {
 	if (!memrec_on || in_rt || n == 0)
 		return;
-	rec((void *)p, wr);
-	rec((char *)p + n - 1, wr);
+	rec_range((void *)p, n, wr);
 }
 
 void memrec_init(int words)
